@@ -22,8 +22,8 @@ def sig(m):
             rules.add("short_option_glued_value_not_utf8")
         if t == "cluster" and it.get("hasv") and "=" in it.get("v", ""):
             rules.add("cluster_attached_value_contains_equals")
-        if t == "cluster" and (set(it.get("ss", [])) | {it.get("last")}) & hidden_short:
-            rules.add("hidden_flag_in_cluster")
+        if (t == "cluster" and (set(it.get("ss", [])) | {it.get("last")}) & hidden_short) or (t == "glued" and it.get("s") in hidden_short):
+            rules.add("hidden_short_name_in_multi_letter_item")
     if rules:
         return {"rule": sorted(rules)}
     return cmdline_sig.signature(m)
